@@ -9,6 +9,35 @@ Open Scope string_scope.
 Open Scope list_scope.
 Open Scope Z_scope.
 
+(* small restatements used by the Props files *)
+Lemma line_header m : line_node (encode m) = Some (m_node m) /\ line_type (encode m) = Some (m_type m).
+Proof. split; [apply line_node_encode|apply line_type_encode]. Qed.
+
+Lemma wake_announcements v m :
+  wake_msg (tab_of v) m =
+  match v with
+  | V20 | V21 => (m_type m =? 3) && (m_sub m =? 22)
+  | V22 => (m_type m =? 3) && (m_sub m =? 32)
+  | _ => false
+  end.
+Proof. unfold wake_msg. rewrite wake_ts_spec. destruct v; reflexivity. Qed.
+
+Lemma flush_children_closed_both orc g nd chs :
+  Forall (fun cd => dv_ok orc (tab g) (n_id nd) (fst cd) (snd cd)) (n_new nd) ->
+  flush_children orc g nd chs = Ok (map encode (children_msgs (tab g) nd chs)) /\
+  flush_children_pre orc g nd chs = (map encode (children_msgs (tab g) nd chs), None).
+Proof. intro H. split; [apply flush_children_closed|apply flush_children_pre_closed]; exact H. Qed.
+
+Lemma late_child_gets_slot nd c : zhas c (n_children nd) = true -> zassoc c (n_new nd) = None ->
+  zassoc c (n_new (woken nd)) = Some [] /\
+  (forall c' dv, zassoc c' (n_new nd) = Some dv -> zassoc c' (n_new (woken nd)) = Some dv).
+Proof.
+  intros ZH D. split.
+  - change (n_new (woken nd)) with (n_new (init_smart_sleep nd)). rewrite (init_slot_new nd c D), ZH. reflexivity.
+  - intros c' dv H. exact (init_slot_old nd c' dv H).
+Qed.
+
+
 Section Sleep.
   Variable orc : oracles.
   Variable clock : Z.
